@@ -387,7 +387,9 @@ def C04(run):
 def C07(run):
     run.model_check("MCSnap", "MCSnap_quick.cfg", workers=8)
     _system_common(run, "C07:", "subsets")
-    # job level, EXHAUSTIVE over the cache files of one segment: every stage x every subset of the segment's files
+    # job level, EXHAUSTIVE over the cache files of one segment: every stage x every subset of the segment's files.
+    # Design level: Job.tla (transcription of GetExecutionPlan + the job's writes) establishes the job contract on all 2^12 x 3 states
+    run.model_check("MCJob", "MCJob.cfg", workers=4)
     tr = _t(run, "jobs.ndjson")
     info = run.harness("jobs", tr)
     v = run.validate("TraceJob", tr)
@@ -396,10 +398,15 @@ def C07(run):
     run.cov["job_level"] = ("%d real tier2 jobs: every stage of a three-stage program (2 variants; 4 in the thorough tier) on every subset "
                             "of the cache files of the job's segment (cached outputs, partial and full snapshots; 2^8 subsets), judged by "
                             "TraceJob.tla: succeeds, deletes nothing, every file left equals the clean run's, snapshots of all stores of "
-                            "stages <= k and the requested output exist afterwards" % (info["records"] - 2))
+                            "stages <= k and the requested output exist afterwards; the plan of the REAL GetExecutionPlan on each of these "
+                            "caches is compared with Job.tla's Plan (drift)" % (info["records"] - 2))
     if run.tier == "thorough":
         def mutj(r):
             r["after"] = [f for f in r["after"] if not (f["kind"] in ("kv", "partial") and f["end"] == 6)]
+        def mutp(r):
+            r["plan"]["toWrite"] = r["plan"]["toWrite"] + ["st9"]
+        run.selftest("TraceJob", tr, "job-plan-stores-to-write", lambda r: r.get("k") == "job" and not r.get("plan", {}).get("skip", True), mutp,
+                     start=lambda r: r.get("k") == "jobprog", span=3)
         run.selftest("TraceJob", tr, "job-snapshot-after", lambda r: r.get("k") == "job" and r.get("stage") == 1 and not r.get("err"), mutj,
                      start=lambda r: r.get("k") == "jobprog", span=3)
 
